@@ -31,6 +31,13 @@ def _subset_job(args):
     import warnings
     warnings.simplefilter("ignore")
     names = ["%d" % i for i in range(1, 10) if (mask >> (i - 1)) & 1]
+    # non-canonical spellings of the free values are different names: they
+    # must not make a free value look taken
+    free = [i for i in range(1, 10) if not (mask >> (i - 1)) & 1]
+    if mask % 3 == 0:
+        names += ["0%d" % i for i in free] + ["00%d" % free[0]] if free else []
+    elif mask % 3 == 1:
+        names += ["%d " % i for i in free[:2]] + [chr(0xff10 + i) for i in free[:1]]
     n = 0
     for k in ks:
         cfg = {"usage": False, "blur": None, "allow_list": allow}
